@@ -31,6 +31,14 @@ def violation_key(bd):
     return k
 
 
+def group(grouped, kind, key, detail):
+    k = (kind, json.dumps(key, sort_keys=True))
+    g = grouped.setdefault(k, {"key": key, "n": 0, "examples": []})
+    g["n"] += 1
+    if len(g["examples"]) < 3:
+        g["examples"].append(detail)
+
+
 def main():
     ck = Check("C14")
     tier = ck.tier
@@ -76,6 +84,7 @@ def main():
     chunks = [states[i: i + chunk] for i in range(0, len(states), chunk)]
     feats = {}
     behaviours = set()
+    grouped = {}
     for mode in ("jit", "py"):
         res = pool.map_tasks("impl.c14", [{"op": "states", "states": c, "mode": mode} for c in chunks], mode=mode)
         for c, rr in zip(chunks, res):
@@ -91,13 +100,16 @@ def main():
                 for f, n in o["features"].items():
                     feats[f] = feats.get(f, 0) + n
             for e in o["errors"]:
-                ck.violation("impl-exception", {"mode": mode, **e}, key={"site": "exception", "error": e["error"][:60]})
+                group(grouped, "impl-exception", {"site": "exception", "error": e["error"][:60]}, {"mode": mode, **e})
             for bd in o["bad"]:
-                ck.violation("summary-mismatch", {"mode": mode, **bd}, key=violation_key(bd))
+                group(grouped, "summary-mismatch", violation_key(bd), {"mode": mode, **bd})
             if o.get("bad_overflow"):
                 ck.bump("mismatches_not_listed", o["bad_overflow"])
         for s in states:
             behaviours.add((s["kind"], tuple(s["ps"]), s["k"], s["c"], s["s"]))
+    # one violation per distinct key (call site + feature), with the number of cases and three examples
+    for (kind, _), g in sorted(grouped.items()):
+        ck.violation(kind, {"n_cases": g["n"], "examples": g["examples"]}, key=g["key"])
     ck.traces += len(states)  # one replayed behaviour (Record^(C*S); Burn) per done state
     ck.note("instances", len(behaviours))
     ck.note("state_features", feats)
@@ -120,7 +132,7 @@ def main():
 
 def trace_part(ck):
     tier = ck.tier
-    nrun = 6 if tier == "quick" else 30
+    nrun = 12 if tier == "quick" else 90
     tasks = [{"op": "programs", "seed": ck.seed * 1000 + i, "index": i} for i in range(nrun)]
     res = pool.map_tasks("impl.c14", tasks, mode="jit")
     events = []
